@@ -1117,3 +1117,79 @@ def self_test():  # noqa: F811
     ok['membership_among_iterators'] = len(membership_among_iterators(
         ast.parse(POSITIVE_EXAMPLES['membership_among_iterators']).body[0])) == 1
     return ok
+
+
+# ---------------------------------------------------------------- stale compartment handle
+REPLACING = {'set_dose', 'add_dose', 'remove_dose', 'set_lag_time', 'set_bioavailability', 'set_input'}
+
+
+def stale_compartment_handles(fnode):
+    """[(mutating node, use node, name)]: `cb.set_bioavailability(comp, f)` replaces the node `comp` of the builder's graph
+    by a new Compartment (and returns it); a later `cb.<anything>(comp, ..)` with the same, not re-bound name hands the
+    builder a compartment that is no longer in the graph (networkx relabels nothing, silently)"""
+    if not any(isinstance(c, ast.Call) and isinstance(c.func, ast.Attribute) and c.func.attr in REPLACING
+               for c in ast.walk(fnode)):
+        return []
+    from .cfg import CFG
+    cfg = CFG(fnode)
+    out = []
+
+    def calls(nd):
+        a = nd.ast
+        if a is None or nd.kind not in ('stmt', 'return', 'test'):
+            return []
+        return [c for c in ast.walk(a) if isinstance(c, ast.Call) and isinstance(c.func, ast.Attribute)
+                and isinstance(c.func.value, ast.Name)]
+
+    def rebinds(nd, name):
+        a = nd.ast
+        if a is None:
+            return False
+        if nd.kind == 'for':
+            return any(isinstance(x, ast.Name) and x.id == name for x in ast.walk(a.target))
+        if isinstance(a, (ast.Assign, ast.AnnAssign, ast.AugAssign)):
+            tg = a.targets if isinstance(a, ast.Assign) else [a.target]
+            return any(isinstance(x, ast.Name) and x.id == name and isinstance(x.ctx, ast.Store) for t in tg for x in ast.walk(t))
+        return any(isinstance(x, ast.NamedExpr) and isinstance(x.target, ast.Name) and x.target.id == name
+                   for x in ast.walk(a) if isinstance(a, ast.AST))
+    for nd in cfg.nodes.values():
+        for c in calls(nd):
+            if c.func.attr not in REPLACING or not c.args or not isinstance(c.args[0], ast.Name):
+                continue
+            builder, name = c.func.value.id, c.args[0].id
+            if rebinds(nd, name):
+                continue                       # comp = cb.set_x(comp, ..)
+            seen, stack = set(), [m for m in cfg.g.successors(nd.id) if not (cfg.g[nd.id][m]['labels'] <= {'exc', 'fexc'})]
+            while stack:
+                m = stack.pop()
+                if m in seen:
+                    continue
+                seen.add(m)
+                mn = cfg.nodes[m]
+                use = next((u for u in calls(mn) if u.func.value.id == builder and any(
+                    isinstance(x, ast.Name) and x.id == name for x in u.args)), None)
+                if use is not None:
+                    out.append((nd, mn, name))
+                    break
+                if rebinds(mn, name):
+                    continue
+                for k in cfg.g.successors(m):
+                    if not (cfg.g[m][k]['labels'] <= {'exc', 'fexc'}):
+                        stack.append(k)
+    return out
+
+
+POSITIVE_EXAMPLES['stale_compartment_handles'] = """
+def f(cb, name, bio, alag):
+    comp = cb.find_compartment(name)
+    cb.set_bioavailability(comp, bio)
+    cb.set_lag_time(comp, alag)
+"""
+_self_test_base_sch = self_test
+
+
+def self_test():  # noqa: F811
+    ok = _self_test_base_sch()
+    ok['stale_compartment_handles'] = len(stale_compartment_handles(
+        ast.parse(POSITIVE_EXAMPLES['stale_compartment_handles']).body[0])) == 1
+    return ok
